@@ -27,6 +27,7 @@ import PoetryVerif.Proofs.PyConvReduce
 import PoetryVerif.Proofs.MarkerAlgSoundOps
 import PoetryVerif.Proofs.PyConvFullLL
 import PoetryVerif.Proofs.PyConvNamed
+import PoetryVerif.Proofs.MarkerExcludeIdem
 
 set_option linter.unusedSimpArgs false
 set_option linter.unusedVariables false
@@ -124,6 +125,45 @@ theorem exclude_members (ev : Leaf → Bool) (x : String) (ms : List M) (hl : al
     ∃ xs, M.excludeList x ms = .ok xs ∧ allLeaves xs = true ∧ M.semAll ev xs = semAllExcept ev x ms := by
   obtain ⟨xs, h1, h2, _, h3⟩ := excludeList_leaves ev (fun _ => True) x ms hl (M.goodAll_trivial ms)
   exact ⟨xs, h1, h2, h3⟩
+
+/-- the surviving clauses are exactly the members on other variables, in their order (`dropNamed`): the member list
+`exclude` hands to the simplifier is a plain filter of the conjunction — nothing is rewritten, merged or reordered
+before `intersection` sees it -/
+theorem exclude_members_eq_filter (x : String) (ms : List M) (hl : allLeaves ms = true) :
+    M.excludeList x ms = .ok (dropNamed x ms) ∧ allLeaves (dropNamed x ms) = true :=
+  ⟨excludeList_eq_dropNamed x ms hl, dropNamed_allLeaves x ms hl⟩
+
+/-- the surviving clauses do not mention the removed variable -/
+theorem exclude_members_not_mentioned (x : String) (ms : List M) (hl : allLeaves ms = true) :
+    ∃ xs, M.excludeList x ms = .ok xs ∧ x ∉ M.varsList xs :=
+  ⟨dropNamed x ms, excludeList_eq_dropNamed x ms hl,
+    noneNamed_not_mem_vars x _ (dropNamed_allLeaves x ms hl) (dropNamed_noneNamed x ms)⟩
+
+/-- removing a variable no clause is about changes nothing (`without_extras` on a marker without `extra`) -/
+theorem exclude_members_absent (x : String) (ms : List M) (hl : allLeaves ms = true)
+    (hn : noneNamed x ms = true) : M.excludeList x ms = .ok ms :=
+  excludeList_noneNamed x ms hl hn
+
+/-- removing twice is removing once -/
+theorem exclude_members_idempotent (x : String) (ms xs : List M) (hl : allLeaves ms = true)
+    (h : M.excludeList x ms = .ok xs) : M.excludeList x xs = .ok xs := by
+  rw [excludeList_eq_dropNamed x ms hl] at h
+  cases h
+  exact excludeList_noneNamed x _ (dropNamed_allLeaves x ms hl) (dropNamed_noneNamed x ms)
+
+/-- removals of two variables commute -/
+theorem exclude_members_commute (x y : String) (ms xs ys : List M) (hl : allLeaves ms = true)
+    (hx : M.excludeList x ms = .ok xs) (hy : M.excludeList y ms = .ok ys) :
+    M.excludeList y xs = M.excludeList x ys := by
+  rw [excludeList_eq_dropNamed x ms hl] at hx
+  rw [excludeList_eq_dropNamed y ms hl] at hy
+  cases hx; cases hy
+  rw [excludeList_eq_dropNamed y _ (dropNamed_allLeaves x ms hl),
+    excludeList_eq_dropNamed x _ (dropNamed_allLeaves y ms hl), dropNamed_comm]
+
+example : noneNamed "extra" [.leaf lPy, .leaf lSys] = true ∧ noneNamed "extra" [.leaf lPy, .leaf lExtra] = false ∧
+    dropNamed "extra" [.leaf lExtra, .leaf lPy, .leaf lExtra, .leaf lSys] = [.leaf lPy, .leaf lSys] := by
+  refine ⟨by decide, by decide, rfl⟩
 
 /-- `without_extras` is `exclude("extra")` -/
 theorem without_extras_eq (m : M) : M.withoutExtras m = M.exclude "extra" m := rfl
